@@ -296,6 +296,13 @@ func (c *CreateAndBroadcastOpeningTransaction) Execute(services *SwapServices, s
 		blindingKeyHex = hex.EncodeToString(blindingKey.Serialize())
 	}
 
+	// Look up the block height before any funds are moved: once the opening
+	// transaction is broadcast, no failure may cancel the swap anymore.
+	startingHeight, err := txWatcher.GetBlockHeight()
+	if err != nil {
+		return swap.HandleError(err)
+	}
+
 	// Create the opening transaction
 	txHex, address, txId, _, vout, err := wallet.CreateOpeningTransaction(&OpeningParams{
 		TakerPubkey:      swap.GetTakerPubkey(),
@@ -313,10 +320,6 @@ func (c *CreateAndBroadcastOpeningTransaction) Execute(services *SwapServices, s
 	if err != nil {
 		log.Infof("Error labeling transaction. txid: %s, label: %s, error: %v",
 			txId, labels.Opening(swap.GetId().Short()), err)
-	}
-	startingHeight, err := txWatcher.GetBlockHeight()
-	if err != nil {
-		return swap.HandleError(err)
 	}
 	swap.StartingBlockHeight = startingHeight
 	if swap.GetChain() == l_btc_chain && swap.GetProtocolVersion() == PEERSWAP_PROTOCOL_VERSION {
